@@ -7,6 +7,7 @@ import (
 	"encoding/hex"
 	"errors"
 	"fmt"
+	"io"
 	"math/big"
 
 	"github.com/cloudflare/pat-go/ecdsa"
@@ -35,6 +36,7 @@ type scriptedReader struct {
 	budget   int // bytes delivered before permanent failure; <0 = never fails
 	chunking int // 0 all at once, 1 one byte at a time, 2 seeded splits, 3 zero-length reads interleaved
 	consumed int
+	errKind  int // 0 errEntropy, 1 io.EOF, 2 io.ErrUnexpectedEOF
 	fill     int // 0 seeded bytes, 1 every byte 0xff (a first candidate that is out of range, should the implementation redraw), 2 every byte zero
 	failed   bool
 	reads    int
@@ -43,6 +45,18 @@ type scriptedReader struct {
 
 var errEntropy = errors.New("scripted entropy failure")
 
+// failure is the error the reader fails with: its own error value, io.EOF or io.ErrUnexpectedEOF (a source that simply
+// ends is a failed source too)
+func (s *scriptedReader) failure() error {
+	switch s.errKind {
+	case 1:
+		return io.EOF
+	case 2:
+		return io.ErrUnexpectedEOF
+	}
+	return errEntropy
+}
+
 func (s *scriptedReader) Read(p []byte) (int, error) {
 	s.reads++
 	if len(p) == 0 {
@@ -50,7 +64,7 @@ func (s *scriptedReader) Read(p []byte) (int, error) {
 	}
 	if s.budget >= 0 && s.consumed >= s.budget {
 		s.failed = true
-		return 0, errEntropy
+		return 0, s.failure()
 	}
 	n := len(p)
 	switch s.chunking {
@@ -65,8 +79,10 @@ func (s *scriptedReader) Read(p []byte) (int, error) {
 		}
 		n = 1 + s.src.IntN(len(p))
 	}
+	last := false
 	if s.budget >= 0 && s.consumed+n > s.budget {
 		n = s.budget - s.consumed
+		last = s.errKind != 0 // a source that ends hands out its last bytes together with the error
 	}
 	s.src.Read(p[:n])
 	switch s.fill {
@@ -80,6 +96,10 @@ func (s *scriptedReader) Read(p []byte) (int, error) {
 		}
 	}
 	s.consumed += n
+	if last {
+		s.failed = true
+		return n, s.failure()
+	}
 	return n, nil
 }
 
@@ -560,9 +580,9 @@ func c13Faults(c *core.Ctx, curve elliptic.Curve) {
 				if !c.Next() {
 					continue
 				}
-				reps := c.Pick(3, 12)
+				reps := c.Pick(9, 18)
 				for rep := 0; rep < reps; rep++ {
-					rd := &scriptedReader{src: c.CaseRng(), budget: f, chunking: chunking, fill: rep % 3}
+					rd := &scriptedReader{src: c.CaseRng(), budget: f, chunking: chunking, fill: rep % 3, errKind: (rep / 3) % 3}
 					c.Eval(1)
 					c.Note(fmt.Sprintf("%s %s fault=%d chunking=%d", name, e.name, f, chunking))
 					var err error
